@@ -287,6 +287,7 @@ def check_expr(ctx, e, env=None, doc=DOC, pre_ops=()):
 assign_s = st.lists(st.one_of(
     st.tuples(st.just('set'), st.sampled_from(['a', 'b', 'c']), exprs(2)),
     st.tuples(st.just('seta'), st.integers(0, 3), exprs(2)),
+    st.tuples(st.just('seta'), st.sampled_from([4, 5, -1, 3, 0, 4]), exprs(1)),
     st.tuples(st.just('get'), exprs(2)),
 ), min_size=1, max_size=6)
 
@@ -311,9 +312,11 @@ def check_seq(ctx, seq):
                 return
             except Err:
                 v = None
-            loc = s[1] if s[0] == 'set' else "arr[%d]" % s[1]
+            loc = s[1] if s[0] == 'set' else ("arr[%d]" % s[1] if s[1] >= 0 else "arr[0 - %d]" % -s[1])
             ops.append("a" + loc + "\x1f" + pr_min(e))
-            if v is None:
+            if s[0] == 'seta' and not (0 <= s[1] < len(env['arr'])):
+                expect.append(('err',))      # a write outside the declared bounds is an error and changes nothing
+            elif v is None:
                 expect.append(('err',))
             else:
                 expect.append('ok')
